@@ -1006,3 +1006,29 @@ func (*LengthFunction).Execute
   modifies *
 
 @*/
+
+/*@
+// ---------------------------------------------------------------- C03: nth_value (window accumulator)
+func (*NthValueFunction).New
+  props C03
+  ensures own-empty-state-same-n: hasType(result, *NthValueFunction) && fresh(unbox(result, *NthValueFunction)) && len(unbox(result, *NthValueFunction).values) == 0 && unbox(result, *NthValueFunction).n == f.n
+
+func (*NthValueFunction).Add
+  props C03
+  modifies f.values
+  ensures every-input-is-kept-in-arrival-order: len(f.values) == len(old(f.values)) + 1 && f.values[len(f.values) - 1] == value && forall(i, 0, len(old(f.values)), f.values[i] == old(f.values)[i])
+
+func (*NthValueFunction).Result
+  props C03
+  ensures the-nth-input-of-the-batch-counting-from-one: f.n > 0 && len(f.values) >= f.n ==> result == f.values[f.n - 1]
+  ensures null-when-the-batch-has-fewer-than-n-inputs: !(f.n > 0 && len(f.values) >= f.n) ==> result == nil
+
+func (*NthValueFunction).Reset
+  props C03
+  modifies f.values
+  ensures len(f.values) == 0
+
+func (*NthValueFunction).Clone
+  props C03
+  ensures independent-copy: hasType(result, *NthValueFunction) && fresh(unbox(result, *NthValueFunction)) && seqeq(unbox(result, *NthValueFunction).values, f.values) && unbox(result, *NthValueFunction).n == f.n
+@*/
